@@ -4,11 +4,12 @@
 // license that can be found in the LICENSE file or at
 // https://opensource.org/licenses/MIT.
 
+use std::borrow::Cow;
 use std::error::Error;
 use std::fs::{self, File};
+use std::io::{stderr, Write};
 use std::path::Path;
 use std::time::SystemTime;
-use std::{borrow::Cow, io::Write};
 
 use chrono::{format::StrftimeItems, DateTime, Local};
 
@@ -627,11 +628,11 @@ impl Printf {
         })
     }
 
-    fn print(&self, file_info: &WalkEntry, mut out: impl Write) {
+    fn print(&self, file_info: &WalkEntry, mut out: impl Write) -> std::io::Result<()> {
         for component in &self.format.components {
             match component {
-                FormatComponent::Literal(literal) => write!(out, "{literal}").unwrap(),
-                FormatComponent::Flush => out.flush().unwrap(),
+                FormatComponent::Literal(literal) => write!(out, "{literal}")?,
+                FormatComponent::Flush => out.flush()?,
                 FormatComponent::Directive {
                     directive,
                     width,
@@ -641,36 +642,56 @@ impl Printf {
                         if let Some(width) = width {
                             match justify {
                                 Justify::Left => {
-                                    write!(out, "{content:<width$}").unwrap();
+                                    write!(out, "{content:<width$}")?;
                                 }
                                 Justify::Right => {
-                                    write!(out, "{content:>width$}").unwrap();
+                                    write!(out, "{content:>width$}")?;
                                 }
                             }
                         } else {
-                            write!(out, "{content}").unwrap();
+                            write!(out, "{content}")?;
                         }
                     }
                     Err(e) => {
-                        eprintln!(
+                        writeln!(
+                            &mut stderr(),
                             "Error processing '{}': {}",
                             file_info.path().to_string_lossy(),
                             e
-                        );
+                        )
+                        .ok();
                         break;
                     }
                 },
             }
         }
+        Ok(())
     }
 }
 
 impl Matcher for Printf {
     fn matches(&self, file_info: &WalkEntry, matcher_io: &mut MatcherIO) -> bool {
-        if let Some(file) = &self.output_file {
-            self.print(file_info, file);
+        let written = if let Some(file) = &self.output_file {
+            self.print(file_info, file)
         } else {
-            self.print(file_info, &mut *matcher_io.deps.get_output().borrow_mut());
+            self.print(file_info, &mut *matcher_io.deps.get_output().borrow_mut())
+        };
+        if let Err(e) = written {
+            // A closed pipe is the reader's way of saying "enough".
+            if self.output_file.is_some() || e.kind() != std::io::ErrorKind::BrokenPipe {
+                writeln!(
+                    &mut stderr(),
+                    "Error writing {:?} for {}",
+                    file_info.path().to_string_lossy(),
+                    e
+                )
+                .ok();
+            }
+            matcher_io.set_exit_code(1);
+            if self.output_file.is_none() {
+                // Standard output is gone: nothing more can be printed.
+                matcher_io.quit();
+            }
         }
 
         true
